@@ -307,6 +307,10 @@ impl<H: Hal, T: Transport, const RX_BUFFER_SIZE: usize>
             if let Some(event) = self.poll()? {
                 return Ok(event);
             } else {
+                #[cfg(feature = "verif-hooks")]
+                crate::verif_hooks::fire(crate::verif_hooks::Point::Spin(
+                    crate::verif_hooks::SpinSite::VsockWaitForEvent,
+                ));
                 spin_loop();
             }
         }
